@@ -315,11 +315,10 @@ class ResponseHandler(BaseProtocol, DataQueue[tuple[RawResponseMessage, StreamRe
                 self._data_received_cb()
             eof, tail = self._payload_parser.feed_data(data)
             if eof:
+                # The reader ended the stream with an error. Keep it in place:
+                # it discards further input, which would otherwise pile up in
+                # self._tail without bound.
                 self._payload = None
-                self._payload_parser = None
-
-                if tail:
-                    self.data_received(tail)
             return
 
         if self._upgraded or self._parser is None:
